@@ -3058,7 +3058,7 @@ def transform_pseudo_instructions(items, constants, labels):
             value = imm.eval(position, env, item.line)
             value = c_int32(value).value  # signed imm
             if value >= (-2**20) and value <= (2**20 - 1):
-                inst = JTypeInstruction(item.line, 'jal', rd='x1', imm=Lo(imm))
+                inst = JTypeInstruction(item.line, 'jal', rd='x1', imm=imm)
                 # shrink all subsequent labels by 4
                 new_labels = {k: v - 4 for k, v in labels.items() if v > position}
                 labels.update(new_labels)
@@ -3079,7 +3079,7 @@ def transform_pseudo_instructions(items, constants, labels):
             value = imm.eval(position, env, item.line)
             value = c_int32(value).value  # signed imm
             if value >= (-2**20) and value <= (2**20 - 1):
-                inst = JTypeInstruction(item.line, 'jal', rd='x0', imm=Lo(imm))
+                inst = JTypeInstruction(item.line, 'jal', rd='x0', imm=imm)
                 # shrink all subsequent labels by 4
                 new_labels = {k: v - 4 for k, v in labels.items() if v > position}
                 labels.update(new_labels)
